@@ -124,6 +124,52 @@ def generate(ctx, name, extra=None):
     return cases_path
 
 
+def build_variant(ctx, tag, features=None, rustflags=None):
+    """builds the harness a second time (other cargo features / rustflags) into its own target directory"""
+    tdir = os.path.join(ctx["harness"], f"target_{tag}")
+    cmd = ["cargo", "build", "--release", "--offline", "--target-dir", tdir]
+    if features:
+        cmd += ["--features", ",".join(features)]
+    env = dict(ctx["env"])
+    if rustflags is not None:
+        env["RUSTFLAGS"] = rustflags
+    p = subprocess.run(cmd, cwd=ctx["harness"], env=env, stdout=subprocess.PIPE, stderr=subprocess.STDOUT)
+    if p.returncode != 0:
+        ctx.setdefault("gen_failures", []).append(dict(key=f"variant-build-failed:{tag}", case=f"cargo build {tag}",
+            detail=p.stdout.decode("utf-8", "replace")[-600:]))
+        return None
+    return os.path.join(tdir, "release", "vh")
+
+
+def shape_of(hexs):
+    """text with every number token outside strings replaced by '#'"""
+    try:
+        b = bytes.fromhex(hexs) if hexs != "-" else b""
+    except ValueError:
+        return None
+    out = bytearray()
+    i, n = 0, len(b)
+    while i < n:
+        c = b[i]
+        if c == 0x22:
+            j = i + 1
+            while j < n and b[j] != 0x22:
+                j += 2 if b[j] == 0x5c else 1
+            out += b[i:j + 1]
+            i = j + 1
+        elif c in b"-+.0123456789eE" and not (c in b"eE" and (i == 0 or b[i-1:i] not in b"0123456789.")):
+            j = i
+            while j < n and b[j] in b"-+.0123456789eE":
+                j += 1
+            # literals true/false/null contain 'e': they are letters preceded by letters, handled by the guard above
+            out += b"#"
+            i = j
+        else:
+            out.append(c)
+            i += 1
+    return bytes(out)
+
+
 class StreamProp(Prop):
     """A property decided over one or more line-protocol streams with declarative rules.
 
@@ -1272,7 +1318,81 @@ class C15(Prop):
                                                     detail=f"step {k}: impl {a[k] if k < len(a) else None} model {m[k] if k < len(m) else None}"))
 
 
-REGISTRY = {"C15": C15(), "C16": C16(), "C05": C05(), "C18": C18(), "C08": C08(), "C07": C07(), "C03": C03(), "C02": C02(), "C20": C20(), "C09": C09(), "C10": C10(), "C14": C14(), "C12": C12()}
+# ------------------------------------------------------------------------------------------
+# C06
+
+class C06(Prop):
+    rule = ("fixed corner cases (duplicate and unsorted keys, escapes, number spellings), the repository's benchmark corpus and generated well-formed "
+            "documents (depth <= 5, duplicate keys, long strings, whitespace); for each: to_string / Display / to_vec / to_string_pretty of the DOM, "
+            "re-parse and second pass, in default and raw-number mode, in TWO builds of the harness (default, and cargo feature sort_keys); the raw-number "
+            "outputs are compared byte for byte with the Lean serializer model applied to the specification's tree (members in source order with "
+            "duplicates; stably sorted by key in the sort_keys build), the default-mode outputs with the same text modulo number tokens; "
+            "non-trivial = the document contains a container or a string")
+    trusted = ["float printing itself (shortest round-trip digits) is C08's subject: in default mode number tokens are compared by value after re-parsing"]
+    assumptions = ["inputs are well-formed JSON (others are skipped after checking that both sides reject)"]
+
+    def explore(self, ctx, res):
+        name = "c06"
+        cases_path = generate(ctx, name)
+        impl, model, crashed, err = run_stream(ctx, name, cases_path)
+        with open(cases_path) as f:
+            cases = f.read().splitlines()
+        if crashed or len(impl) != len(cases):
+            idx = min(len(impl), len(cases) - 1)
+            res.oracle_failures.append(dict(key="c06:process-abort", case=cases[idx], detail=f"harness exited abnormally after {len(impl)} of {len(cases)} cases: {err[-300:]}"))
+        sk = build_variant(ctx, "sk", features=["sort_keys"])
+        impl_sk = None
+        if sk:
+            outp = cases_path + ".sk"
+            rc, err2 = ctx["run_lines"](sk, [name, "run"], cases_path, outp)
+            with open(outp, errors="replace") as f:
+                impl_sk = f.read().splitlines()
+            if rc != 0 or len(impl_sk) != len(cases):
+                res.oracle_failures.append(dict(key="c06:process-abort:sort_keys", case=cases[min(len(impl_sk), len(cases) - 1)], detail=err2[-300:]))
+        n = min(len(impl), len(cases))
+        for i in range(n):
+            case = cases[i]
+            res.evaluations += 1
+            I = ctx["parse_fields"](impl[i])
+            M = ctx["parse_fields"](model[i]) if model and i < len(model) else {}
+            if model is not None and not M:
+                res.model_disagreements.append(dict(key="c06:model-output-missing", case=case, detail=""))
+                continue
+            if len(res.samples) < 6 and i % max(1, n // 6) == 0:
+                res.samples.append({"case": case[:200], "impl": impl[i][:200], "model": (model[i][:200] if model and i < len(model) else None)})
+            if impl[i].startswith("PANIC"):
+                res.oracle_failures.append(dict(key="C06|panic", case=case, detail="implementation panicked"))
+                continue
+            if I.get("acc") != M.get("spec.acc"):
+                # accept/reject is C02/C03's business; here only note it
+                res.distribution["acc-differs(see C02/C03)"] += 1
+            if I.get("acc") != "A" or M.get("spec.acc") != "A":
+                res.distribution["skipped(not well-formed)"] += 1
+                continue
+            raw = M.get("spec.raw", "")
+            if any(ch in bytes.fromhex(raw) if raw != "-" else False for ch in b"[{\""):
+                res.nontrivial(case)
+            for builds, J, sorted_ in ((("default", I, False),) + ((("sort_keys", ctx["parse_fields"](impl_sk[i]), True),) if impl_sk and i < len(impl_sk) else ())):
+                tag = builds
+                # (the sort_keys build may change the member order and nothing else: its re-parsed DOM is compared modulo that order)
+                for fld in (("eqs", "fix", "disp", "vec", "pretty_eqs", "pretty_fix", "raweqs", "rawfix") if sorted_ else
+                            ("eq", "eqs", "fix", "disp", "vec", "pretty_eq", "pretty_fix", "raweq", "rawfix")):
+                    if J.get(fld) != "A":
+                        res.oracle_failures.append(dict(key=f"C06|{tag}|{fld}", case=case, detail=f"{fld}={J.get(fld)} (s={J.get('s','')[:120]})"))
+                want_raw = M.get("spec.rawsorted" if sorted_ else "spec.raw")
+                want_pretty = M.get("spec.rawprettysorted" if sorted_ else "spec.rawpretty")
+                if J.get("raw") != want_raw:
+                    res.oracle_failures.append(dict(key=f"C06|{tag}|raw-output-differs", case=case, detail=f"impl {J.get('raw','')[:160]} spec {want_raw[:160] if want_raw else None}"))
+                if J.get("rawpretty") != want_pretty:
+                    res.oracle_failures.append(dict(key=f"C06|{tag}|raw-pretty-output-differs", case=case, detail=f"impl {J.get('rawpretty','')[:160]} spec {want_pretty[:160] if want_pretty else None}"))
+                if shape_of(J.get("s", "")) != shape_of(want_raw or ""):
+                    res.oracle_failures.append(dict(key=f"C06|{tag}|output-structure-differs", case=case, detail=f"impl {J.get('s','')[:160]} spec(raw) {want_raw[:160] if want_raw else None}"))
+                if shape_of(J.get("pretty", "")) != shape_of(want_pretty or ""):
+                    res.oracle_failures.append(dict(key=f"C06|{tag}|pretty-structure-differs", case=case, detail=f"impl {J.get('pretty','')[:160]} spec {want_pretty[:160] if want_pretty else None}"))
+                res.distribution[f"build:{tag}"] += 1
+
+
+REGISTRY = {"C06": C06(), "C15": C15(), "C16": C16(), "C05": C05(), "C18": C18(), "C08": C08(), "C07": C07(), "C03": C03(), "C02": C02(), "C20": C20(), "C09": C09(), "C10": C10(), "C14": C14(), "C12": C12()}
 for _k, _v in REGISTRY.items():
     _v.pid = _k
 
